@@ -66,6 +66,15 @@ def c09_oracle(op, impl):
         s, shown = unhex(t[4]), unhex(r[0])
         if not (shown == s or shown + b"." == s):
             return ("accepted token string does not re-serialise to itself (up to one trailing '.')", "core/tok/canonical")
+    elif name == "tokc.rt":
+        # payload type with `SUFFIX = "c"`: the header is version ‖ suffix ‖ purpose (PASETO: `vN` + suffix + `.purpose.`)
+        s, shown = unhex(t[4]), unhex(r[0])
+        ver = {"v1": b"v1", "v2": b"v2", "v3": b"v3", "v3lc": b"v3", "v4": b"v4", "v4s": b"v4"}.get(t[1])
+        want = (ver or b"?") + b"c." + t[2].encode() + b"."
+        if not s.startswith(want):
+            return ("a token string whose header is not version+suffix+purpose was accepted for a payload type with a suffix", "core/tok/suffix-header")
+        if not (shown == s or shown + b"." == s):
+            return ("accepted token string (suffixed payload type) does not re-serialise to itself", "core/tok/canonical")
     elif name == "txt.rt":
         s, shown = unhex(t[4]), unhex(r[0])
         if shown != s:
